@@ -1,4 +1,5 @@
 #![recursion_limit = "512"]
+#![allow(dead_code, unused_assignments)]
 //! celsim — deterministic simulation harness for cel-rust property C05.
 //! See /verif/DESIGN.md. This binary is one worker: the orchestration (parallel workers, build,
 //! Miri, evidence) lives in /verif/check.
